@@ -1,5 +1,6 @@
 From Coq Require Import List Arith Bool String Ascii.
 From Wire Require Import Names Sets Model Exec.
+From Wire Require Imports.
 Import ListNotations.
 Definition snoc {A} (l : list A) (x : A) : list A := l ++ [x].
 Definition lapp {A} (l1 l2 : list A) : list A := l1 ++ l2.
@@ -299,9 +300,8 @@ Definition inject (inj : injector) (vs : list valinfo) (cs : list call) (g : gst
   let '(vars, g4) := emit_vars pending g3 [] in
   (lapp lines vars, g4).
 
-Definition import_lines (g : gst) : list string :=
-  map (fun x : string * (string * bool) =>
-         (if snd (snd x) then fst (snd x) ++ " " else EmptyString) ++ """" ++ fst x ++ """") (g_imports g).
+(* frame(): the import block lists g.imports sorted by path (Imports.v) *)
+Definition import_lines (g : gst) : list string := Imports.import_block (g_imports g).
 
 End E.
 
@@ -334,7 +334,7 @@ Inductive gen_observed :=
 Definition gen_agrees (r : gen_result) (o : gen_observed) : bool :=
   match r, o with
   | GErr st ds, GOErr st' ds' => stage_eqb st st' && perm_eqb diag_eqb ds ds'
-  | GOk l i, GOOk l' i' => list_eqb String.eqb l l' && perm_eqb String.eqb i i'
+  | GOk l i, GOOk l' i' => list_eqb String.eqb l l' && list_eqb String.eqb i i'
   | _, _ => false
   end.
 
